@@ -8,7 +8,7 @@ CFG = dict(
          "written on the line), gate close followed by cap-1..cap+3 records (exactly-full / over-full), gate open, Flush/Close (also issued under a stall), "
          "looks at the file, pauses; the PERIODIC flush is a first-class event: with tickers of 3..5 ms the harness waits until the ticker branch is blocked in the closed gate (`tb`), "
          "lets 0..cap+1 writes land while it is stalled, lets the disk resume just long enough for that periodic flush to finish (`te`, before the next tick) and then calls "
-         "Flush at once / looks at the file / or calls Flush while it is still stalled (3 fixed cases + ~12% of script steps); 25% multi-chunk clients (2/3/5/8 chunks, model = implementation only), 12% use after Close; the schedule the real "
+         "Flush at once / looks at the file / or calls Flush while it is still stalled (3 fixed cases + ~12% of script steps); single writes of about / more than 64 KiB (65535/65536/65537, 2x, 3x, random 1..200000 bytes) against a stalled queue with 0..3 free slots (4 fixed + 4% of cases; also long LJH3 records on the stalled pipe); long payloads run-length encoded on the line; 25% multi-chunk clients (2/3/5/8 chunks, model = implementation only), 12% use after Close; the schedule the real "
          "goroutine took is read back exactly (queue length accessor + gate length) and replayed step by step by the Lean model. LJH22/LJH3/OFF (3 fixed + "
          "~2.5%): the REAL ljh.Writer / ljh.Writer3 / off.Writer writing to a named pipe with a 4 KiB kernel buffer that the harness drains or not, "
          "until the 1000-deep queue is full and 1..60 records have been rejected per stall phase, then resume, Flush, Close; three directed cases per quick run (3 s; 36 per thorough run, 3..5 s) keep the pipe stalled for SECONDS after Close (30%: also after a Flush) was issued with the queue full — longer than any plausible give-up timeout; they run concurrently in different worker chunks; expected record bytes come "
